@@ -345,7 +345,7 @@ def replay_natively(h, crate, logdir, failed, tier):
     out = {"reproduced": False, "tests": [], "reason": ""}
     log = os.path.join(logdir, h.name + ".playback.log")
     timeout = 3 * (h.timeout or DEFAULT_TIMEOUT[tier])
-    rc, to = run(harness_cmd(h, playback=True, failed=failed), crate, log, timeout, MEM_LIMIT_KB)
+    rc, to = run(harness_cmd(h, playback=True, failed=failed), crate, log, timeout, max(MEM_LIMIT_KB, 40 * 1024 * 1024))
     text = open(log, errors="replace").read()
     tests = [t for t in parse_playback(text) if t[0] != "cover"]
     if not tests:
